@@ -15,6 +15,7 @@ Refutations are computed on `XRat` (0/0 = NaN, x/0 = ±∞ exactly as in f64).
 -/
 import RsassModel.Value.Lemmas
 import RsassModel.Num.XRatLaws
+import RsassModel.Value.StructKeys
 namespace C12
 open Val Num Num.NumCmpOps
 
@@ -360,5 +361,26 @@ theorem comparable_convertible (L : NumCmpLaws ν) (q : ValQuirks) (hq : q.convC
 
 /-- the hypotheses of `trichotomy` / `comparable_same_unit` are met: `1 < 2` -/
 example : numericCmp asis env0 one 0 ⟨2, 1⟩ 0 = some .lt := by decide +kernel
+
+/-! ## the structured-key fragment: no hypothesis on numbers at all -/
+
+/-- On values built from null, booleans, functions, all strings and lists of these (any depth),
+`==` is symmetric for EVERY flag setting with the unquote-based string comparison — in particular
+for the old asymmetric number test — and with no assumption on the number carrier. -/
+theorem valueEq_symm_structured (q : ValQuirks) (hq : q.strEqSameQuotesRaw = false) (env : Env ν)
+    (a b : V ν) (ha : a.goodKey = true) (hb : b.goodKey = true) :
+    V.eq q env a b = V.eq q env b a :=
+  (kequiv_good q hq env).symm ⟨a, ha⟩ ⟨b, hb⟩
+
+/-- … reflexive, … -/
+theorem valueEq_refl_structured (q : ValQuirks) (hq : q.strEqSameQuotesRaw = false) (env : Env ν)
+    (a : V ν) (ha : a.goodKey = true) : V.eq q env a a = true :=
+  (kequiv_good q hq env).refl ⟨a, ha⟩
+
+/-- … and transitive (which `==` on numbers and colours is not). -/
+theorem valueEq_trans_structured (q : ValQuirks) (hq : q.strEqSameQuotesRaw = false) (env : Env ν)
+    (a b c : V ν) (ha : a.goodKey = true) (hb : b.goodKey = true) (hc : c.goodKey = true)
+    (h1 : V.eq q env a b = true) (h2 : V.eq q env b c = true) : V.eq q env a c = true :=
+  (kequiv_good q hq env).trans ⟨a, ha⟩ ⟨b, hb⟩ ⟨c, hc⟩ h1 h2
 
 end C12
